@@ -381,7 +381,12 @@ class WebsocketSession(object):
             return
 
         # Connected to the server, but not yet upgraded to websockets
-        yield events.Connected(url, proxy=proxy)
+        try:
+            yield events.Connected(url, proxy=proxy)
+        except GeneratorExit:
+            # The caller stopped iterating, don't leak the socket
+            self._close_socket()
+            raise
 
         selector = self._selector_cls(sock)
         log.debug('%r created', selector)
@@ -430,4 +435,6 @@ class WebsocketSession(object):
             self._close_socket()
             yield events.Disconnected(graceful=True)
         finally:
+            # A no-op unless the generator was abandoned at an event
+            self._close_socket()
             selector.close()
